@@ -400,8 +400,13 @@ func runC02(r *Run) {
 		ok, _ := security.CheckPAACookie(context.WithValue(ctxWithIdentity(id), protocol.CtxTunnel, t), tok)
 		return ok
 	}
-	for i, st := range []string{"revoked", "error", "hangup", "revoked"} {
+	for i, st := range []string{"revoked", "error", "hangup", "revoked", "revoked", "error"} {
 		at := fmt.Sprintf("at-history-%d", i)
+		if i >= 4 {
+			// an access token that is itself a JWT signed by the identity provider (as Keycloak or Entra
+			// issue them): whether the provider still honours it is the provider's word, not the token's
+			at = idp.idToken(idp.stdClaims(map[string]interface{}{"sub": "alice", "jti": fmt.Sprintf("at-%d", i)}), nil)
+		}
 		idp.setToken(at, "ok:alice")
 		tok := mint(at, "host:3389", "192.0.2.1")
 		first := checkNow(tok)
